@@ -194,8 +194,8 @@ pub fn gen_thread(cs: &mut ChoiceStream, g: &GenCfg, thread_no: usize, n_chans: 
                 };
                 Op::ExchangeDeclare { ty, name: gen_name(cs, &mark, "x"), durable: b(cs, "f"), auto_delete: b(cs, "f"), internal: b(cs, "f"), args: cs.choose("args", 5), mode }
             }
-            "xbind" => Op::ExchangeBind { dest: gen_name(cs, &mark, "xd"), src: gen_name(cs, &mark, "xs"), rk: gen_name(cs, &mark, "rk"), args: cs.choose("args", 5), nowait: nowait_ok && b(cs, "nowait"), via: if g.via_handles { cs.choose("xvia", 3) as u8 } else { 0 } },
-            "xunbind" => Op::ExchangeUnbind { dest: gen_name(cs, &mark, "xd"), src: gen_name(cs, &mark, "xs"), rk: gen_name(cs, &mark, "rk"), args: cs.choose("args", 5), nowait: nowait_ok && b(cs, "nowait"), via: if g.via_handles { cs.choose("xvia", 3) as u8 } else { 0 } },
+            "xbind" => Op::ExchangeBind { dest: gen_name(cs, &mark, "xd"), src: gen_name(cs, &mark, "xs"), rk: gen_name(cs, &mark, "rk"), args: cs.choose("args", 5), nowait: nowait_ok && b(cs, "nowait"), via: if g.via_handles { cs.choose("xvia", 5) as u8 } else { 0 } },
+            "xunbind" => Op::ExchangeUnbind { dest: gen_name(cs, &mark, "xd"), src: gen_name(cs, &mark, "xs"), rk: gen_name(cs, &mark, "rk"), args: cs.choose("args", 5), nowait: nowait_ok && b(cs, "nowait"), via: if g.via_handles { cs.choose("xvia", 5) as u8 } else { 0 } },
             "xdelete" => Op::ExchangeDelete { name: gen_name(cs, &mark, "x"), if_unused: b(cs, "f"), nowait: nowait_ok && b(cs, "nowait"), via_exchange: via },
             "qos" => Op::Qos { size: cs.choose("qos_size", 3) * 1000, count: cs.choose("qos_count", 500) as u16, global: b(cs, "f") },
             "recover" => Op::Recover { requeue: b(cs, "f") },
